@@ -47,6 +47,20 @@ def is_update(t, inner_pred=None):
     return is_t(t, "ctor") and t[1] == "Update" and len(t[2]) == 1 and (inner_pred is None or inner_pred(t[2][0]))
 
 
+def _is_like(t):
+    return is_t(t, "call") and is_t(t[1], "attr") and t[1][2] == "_like" and len(t[2]) == 2
+
+
+def strip_like(t):
+    """Distribution._like(value, proto) changes the dtype of `value` to proto's and nothing else: value-preserving for the provenance comparison
+    (that it IS applied, with the right prototype, is the DTYPE-ALIGN obligation)"""
+    if _is_like(t):
+        return strip_like(t[2][0])
+    if isinstance(t, tuple):
+        return tuple(strip_like(x) if isinstance(x, tuple) else x for x in t)
+    return t
+
+
 def analyse(obs: Obs, prog):
     ev = Evaluator(prog)
     ev.opaque_methods |= {"estimate_logpdf", "random_weighted", "assess", "sample", "logpdf"}
@@ -111,7 +125,14 @@ def analyse(obs: Obs, prog):
     w = W(D, "generate_choice_map")
     V = call0(P("chm"), "get_value")
     seen = set()
-    for conds, t in arms_of(r):
+    # DTYPE-ALIGN: a masked constraint goes through a flag-dependent cond whose arms return "the constraint value" and "a sampled value": they must agree on
+    # the dtype (lax.cond demands identical output types), so the constraint value is first given the dtype of what the distribution samples.  The unmasked
+    # path accepts e.g. a bool for bernoulli or an int for poisson by promotion; the masked path raised TypeError for the same value.
+    likes_g = [x for c_, t_ in arms_of(r) for x in subterms(t_) if _is_like(x)]
+    okg_ = bool(likes_g) and all(x[2][0] == ("attr", V, "value") and is_call(x[2][1], "eval_shape") for x in likes_g)
+    obs.add({"C35", "C03", "C24"}, "DTYPE-ALIGN", "Distribution.generate/masked/dtype", okg_, construct="dtype of a masked constraint value", derived=f"{len(likes_g)} coercion(s): {[show(x)[:120] for x in likes_g[:1]]}",
+            expected="the constraint value cast to the dtype of the distribution's samples (abstractly evaluated random_weighted) before the cond", where=w)
+    for conds, t in [(c_, strip_like(t_)) for c_, t_ in arms_of(r)]:
         pair = tuple_n(t, 2, "Distribution.generate_choice_map")
         tr, wt = pair
         f = ctor_fields(prog, tr, "DistributionTrace", "generate_choice_map")
@@ -163,7 +184,11 @@ def analyse(obs: Obs, prog):
     OLD = score_of(P("trace"))
     OLDC = choices_of(P("trace"))
     seen = set()
-    for conds, t in arms_of(r):
+    likes_u = [x for c_, t_ in arms_of(r) for x in subterms(t_) if _is_like(x)]
+    oku_ = bool(likes_u) and all(x[2][0] == ("attr", CV, "value") and x[2][1] == call0(OLDC, "get_value") for x in likes_u)
+    obs.add({"C35", "C05", "C24"}, "DTYPE-ALIGN", "Distribution.edit_update/masked/dtype", oku_, construct="dtype of a masked constraint value", derived=f"{len(likes_u)} coercion(s): {[show(x)[:120] for x in likes_u[:1]]}",
+            expected="the constraint value cast to the dtype of the trace's old value before the flag-dependent cond", where=w)
+    for conds, t in [(c_, strip_like(t_)) for c_, t_ in arms_of(r)]:
         q = tuple_n(t, 4, "edit_update_with_constraint")
         tr, wt, rd, bwd = q
         f = ctor_fields(prog, tr, "DistributionTrace", "edit_update_with_constraint")
